@@ -433,6 +433,77 @@ func runC08(c *Ctx, r *Report) {
 		r.Floor("R-C08.6", "fields of the encoded view", nv, 6)
 	}
 
+	// ---- R-C08.8: accessors of the entry and clock types agree with their fields
+	r.Doc("R-C08.8", "every setter of the entry and clock types stores its argument in the field its getter returns (the readers fill entries through setters, the writers read them through getters)")
+	{
+		nacc := 0
+		for _, tn := range []string{"Entry", "LamportClock"} {
+			nt := p.Named("entry", tn)
+			st, ok := nt.Underlying().(*types.Struct)
+			if !ok {
+				continue
+			}
+			fields := map[string]*types.Var{}
+			for i := 0; i < st.NumFields(); i++ {
+				fields[strings.ToLower(st.Field(i).Name())] = st.Field(i)
+			}
+			ms := types.NewMethodSet(types.NewPointer(nt))
+			for i := 0; i < ms.Len(); i++ {
+				m, ok := ms.At(i).Obj().(*types.Func)
+				if !ok {
+					continue
+				}
+				fn := p.ByObj[m]
+				if fn == nil {
+					continue
+				}
+				name := m.Name()
+				sig := m.Type().(*types.Signature)
+				switch {
+				case strings.HasPrefix(name, "Set") && sig.Params().Len() == 1 && sig.Results().Len() == 0:
+					f := fields[strings.ToLower(strings.TrimPrefix(name, "Set"))]
+					if f == nil {
+						continue
+					}
+					nacc++
+					sf := p.SSAFunc(fn)
+					okStore := false
+					allInstrs(sf, false, func(ins ssa.Instruction) {
+						if st, ok := ins.(*ssa.Store); ok {
+							if fv, _ := fieldOf(st.Addr); fv == f && len(sf.Params) == 2 && backSlice(st.Val, nil)[sf.Params[1]] {
+								okStore = true
+							}
+						}
+					})
+					r.Check(okStore, "R-C08.8", r.Key("R-C08.8", fn, "setter", f.Name()), fn.Body.Pos(), name+" stores its argument in "+f.Name(),
+						name+" does not store its argument in the field "+f.Name()+": entries filled by the decoders lose that field, so an entry read back differs from the one written")
+				case strings.HasPrefix(name, "Get") && sig.Params().Len() == 0 && sig.Results().Len() == 1:
+					f := fields[strings.ToLower(strings.TrimPrefix(name, "Get"))]
+					if f == nil {
+						continue
+					}
+					nacc++
+					sf := p.SSAFunc(fn)
+					okRet := false
+					allInstrs(sf, false, func(ins ssa.Instruction) {
+						if ret, ok := ins.(*ssa.Return); ok && len(ret.Results) == 1 {
+							for x := range backSlice(ret.Results[0], nil) {
+								if u, ok := x.(*ssa.UnOp); ok && u.Op == token.MUL {
+									if fv, _ := fieldOf(u.X); fv == f {
+										okRet = true
+									}
+								}
+							}
+						}
+					})
+					r.Check(okRet, "R-C08.8", r.Key("R-C08.8", fn, "getter", f.Name()), fn.Body.Pos(), name+" returns the field "+f.Name(),
+						name+" does not return the field "+f.Name()+": the writers encode another value than the one the entry holds")
+				}
+			}
+		}
+		r.Floor("R-C08.8", "accessors of Entry and LamportClock", nacc, 12)
+	}
+
 	// ---- R-C08.4
 	norm := p.FuncI("entry", "", "Normalize")
 	incF := p.Field("entry", "normalizeEntryOpts", "includeHash")
